@@ -225,6 +225,36 @@ fn pool_json(p: &Pool) -> serde_json::Value {
     })
 }
 
+/// the pool of a hammer round: one hot template exercising filters and tags that could keep a
+/// memo / scratch buffer per parsed node or per process, four data objects that differ everywhere
+fn hammer_pool(r: &mut Rng) -> Pool {
+    use crate::val::RVal;
+    let main = concat!(
+        "{{ html | strip_html }}|{{ when | date: '%Y-%m-%d %H:%M %z' }}|{{ words | split: ' ' | sort | join: ',' | upcase | truncate: 40 }}|",
+        "{% ifchanged %}{{ words | size }}{% endifchanged %}{% cycle 'a', 'b' %}{% capture c %}{{ html | escape_once }}{% endcapture %}{{ c | size }}|",
+        "{% include dynp %}{% render dynp, b: words, c: when %}|{% case k %}{% when 0 %}zero{% when 1, 2 %}low{% else %}high{% endcase %}",
+        "{% for w in (1..3) %}{% if k == w %}={{ w }}{% else %}.{% endif %}{% endfor %}|{{ words | replace: 'a', 'A' | url_encode | size }}|{{ k | plus: 1 | times: 3 | modulo: 7 }}"
+    );
+    let datas = (0..4usize)
+        .map(|k| {
+            RVal::Object(vec![
+                ("k".into(), RVal::Int(k as i64)),
+                ("b".into(), RVal::Int(r.range(0, 99))),
+                ("c".into(), RVal::Str(format!("c{k}"))),
+                ("dynp".into(), RVal::Str(format!("dyn{}", k % 2))),
+                ("html".into(), RVal::Str(format!("<p class=\"k{k}\">paragraph number {k} <b>bold {k}</b> and <i>more text</i></p><!-- c{k} -->"))),
+                ("when".into(), RVal::Str(format!("20{:02}-0{}-1{} 0{}:30:00 +0{}00", 10 + k, 1 + k, k, k, k))),
+                ("words".into(), RVal::Str(format!("alpha-{k} beta-{k} gamma-{k} delta-{k} epsilon-{k} zeta-{k}"))),
+            ])
+        })
+        .collect();
+    Pool {
+        partials: vec![("dyn0".into(), "<dyn0:{{ b }}>".into()), ("dyn1".into(), "<dyn1:{{ c }}>".into())],
+        mains: vec![main.to_string()],
+        datas,
+    }
+}
+
 fn gen_pool(r: &mut Rng) -> Pool {
     let opts = Opts {
         max_depth: 3,
@@ -284,14 +314,22 @@ pub fn run(ctx: &mut Ctx, args: &[String]) {
             continue;
         }
         let mut r = rng.fork(i);
-        let p = gen_pool(&mut r);
         let max_calls: usize = args.iter().position(|a| a == "--max-calls").and_then(|i| args.get(i + 1)).and_then(|s| s.parse().ok()).unwrap_or(50);
-        let rc = RoundCfg {
+        // every 50th round is a "hammer" round: one small hot template, four data objects, eight
+        // threads, many calls -- the shape in which a narrow window in per-node or process-wide
+        // state of a filter or tag is actually hit
+        let hammer = i % 50 == 49 && max_calls >= 50 && max_threads >= 8;
+        let p = if hammer { hammer_pool(&mut r) } else { gen_pool(&mut r) };
+        let rc = if hammer {
+            RoundCfg { threads: 8, calls: 1500, policy: if r.chance(1, 2) { Policy::Lazy } else { Policy::Eager }, delay: Delay::None, skew: false }
+        } else {
+            RoundCfg {
             threads: (*r.pick(&[2usize, 2, 3, 4, 4, 8, 16])).min(max_threads),
             calls: (10 + r.below(41)).min(max_calls),
             policy: if r.chance(3, 4) { Policy::Lazy } else { Policy::Eager },
             delay: *r.pick(&[Delay::None, Delay::Yield, Delay::Yield, Delay::Sleep(50), Delay::Sleep(500)]),
             skew: r.chance(1, 2),
+            }
         };
         let seed = r.next();
         let desc = {
@@ -315,10 +353,14 @@ pub fn run(ctx: &mut Ctx, args: &[String]) {
                 ctx.set_insert("interleaving_signatures", sig);
                 // overlap evidence: calls whose [call, ret] interval overlaps another thread's
                 let mut overlapping = 0u64;
-                for c in &calls {
+                // (quadratic: on the long hammer rounds only the first 400 calls are examined)
+                for c in calls.iter().take(400) {
                     if calls.iter().any(|d| d.thread != c.thread && d.call < c.ret && c.call < d.ret) {
                         overlapping += 1;
                     }
+                }
+                if hammer {
+                    ctx.count("rounds:hammer");
                 }
                 ctx.add("calls", calls.len() as u64);
                 ctx.add("calls_overlapping_another_thread", overlapping);
